@@ -589,6 +589,18 @@ theorem sockConnectRefused_spec (x : SockO) (e : EP) :
   rcases e with _ | _ | y <;>
     simp [setErr, errNewLiteral, SockO.foot, EP.foot, ErrO.foot, ob, List.erase_cons] at h ⊢ <;> grind
 
+theorem sockIoClosed_spec (x : SockO) (e : EP) :
+    Spec (x.foot ++ e.foot) (sockIoClosed x e) (fun r => r.2.1.foot ++ r.2.2.foot) := by
+  intro f s fr h
+  simp only [List.append_assoc] at h
+  have hm := sock_self_mem h
+  simp only [sockIoClosed]
+  wps
+  refine ⟨hm, ?_⟩
+  clear hm
+  rcases e with _ | _ | y <;>
+    simp [setErr, errNewLiteral, SockO.foot, EP.foot, ErrO.foot, ob, List.erase_cons] at h ⊢ <;> grind
+
 theorem sockAccept_spec (x : SockO) (e : EP) :
     Spec (x.foot ++ e.foot) (sockAccept x e) (fun r => r.2.1.foot ++ optL SockO.foot r.2.2.1 ++ r.2.2.2.foot) := by
   intro f s fr h
@@ -675,6 +687,14 @@ theorem NamesOk.frame' {ns ns' : List (Name × Nat)} {i o : List Name} (x : List
 
 theorem NamesOk.of_eq {ns ns' : List (Name × Nat)} (own : List Name) (h : ns' = ns) : NamesOk ns own ns' own :=
   h ▸ NamesOk.refl _ _ _ (fun _ h => h)
+
+/-- after `sem_unlink` / `shm_unlink` the name is free again -/
+@[simp] theorem nameSize_filter_ne (ns : List (Name × Nat)) (n : Name) : ResM.nameSize (ns.filter (·.1 ≠ n)) n = none := by
+  simp [ResM.nameSize, List.find?_eq_none]
+
+@[simp] theorem nameSize_filter_ne2 (ns : List (Name × Nat)) (n : Name) :
+    ResM.nameSize (filter (fun x => !decide (x.fst = n)) ns) n = none := by
+  simp [ResM.nameSize, List.find?_eq_none]
 
 theorem semNew_spec (name : Name) (create : Bool) (e : EP) :
     SpecG e.foot [] (semNew name create e) (fun r => optL SemO.foot r.1 ++ r.2.foot) (fun r => optOwn SemO.owned r.1) := by
